@@ -210,6 +210,16 @@ def run_cases(mod, ctx, cases, kinds_wanted='mgs'):
     for j, k in enumerate(idx_s): res[k]['s'] = out[off + j]
     log(f'  [timing] implementation+generation {t_impl - t_start:.1f}s, driver {time.time() - t_impl:.1f}s for {len(both)} lines')
     if lines_g:
+        # the generated code is *interpreted* (it changes with the source, so it is not compiled): bound the work per run by an
+        # even stride over the stream (every tag keeps its share); the model/Spec comparisons above still cover every case
+        # (by request volume: short leaf requests by the hundred thousand are cheap, a digest over a 2 kB transaction is not)
+        cap = int(os.environ.get('VERIF_G_CAP_BYTES', str(6 * 1024 * 1024)))
+        total = sum(len(l) for l in lines_g)
+        if total > cap:
+            n_keep = max(1, int(len(lines_g) * cap / total))
+            step = len(lines_g) / n_keep
+            keep = sorted({int(j * step) for j in range(n_keep)})
+            lines_g = [lines_g[j] for j in keep]; idx_g = [idx_g[j] for j in keep]
         outg = C_.run_driver(lines_g, gen=True)
         for j, k in enumerate(idx_g): res[k]['g'] = outg[j]
     for r in res:
